@@ -23,7 +23,8 @@ def _worker(args):
         mod = importlib.import_module("contracts." + pid)
         C = mod.build()
         r = verify_function(C, key, opts)
-        return r.to_json()
+        import json as _json
+        return _json.loads(_json.dumps(r.to_json(), default=repr))     # plain data only (no solver objects)
     except Exception as e:      # noqa
         import traceback
         return {"key": key, "crashes": ["%s: %s\n%s" % (type(e).__name__, e, traceback.format_exc()[-1500:])],
